@@ -128,6 +128,10 @@ class RefRT(object):
         return lang.RefFutureResult(value)
 
     def make_exc(self, fr, site, cls):
+        if cls == "cached":
+            if getattr(self, "_cached_exc", None) is None:
+                self._cached_exc = lang.make_user_exc("exc", ("cached",))
+            return self._cached_exc
         tag = ("raise", site, fr.path)
         return lang.make_user_exc(cls, tag)
 
